@@ -24,12 +24,15 @@ THEN = ('std::primitive::bool::then', 'core::bool::<impl bool>::then', 'std::boo
 
 
 class Entry:
-    __slots__ = ('fld', 'target', 'beh', 'name', 'val', 'views', 'where', 'how', 'opaque')
+    __slots__ = ('fld', 'target', 'beh', 'name', 'val', 'views', 'where', 'how', 'opaque', 'groups', 'levels')
 
-    def __init__(self, fld, target, beh, name, val, views, where, how, opaque=False):
+    def __init__(self, fld, target, beh, name, val, views, where, how, opaque=False, groups=None, levels=()):
         self.fld, self.target, self.beh, self.name, self.val = fld, target, beh, name, val
         self.views, self.where, self.how = views, where, how
         self.opaque = opaque    # the entry also depends on a filter whose predicate could not be expressed
+        # the boolean decisions the entry depends on, one list of (value, outcome) spellings per decision
+        self.groups = groups if groups is not None else groups_of(views)
+        self.levels = levels    # (Call, mapping) per level of the call chain that leads to the insert
 
 
 # ---- normal form of a delta value -------------------------------------------------------------------------------
@@ -113,7 +116,10 @@ def _pred_views(sl, p, outcome=True, depth=0):
     out.append((p, outcome))
     q = sl.inline_deep(p)
     if q != p:
-        out.extend(x for x in _pred_views(sl, q, outcome, depth + 1) if x not in out)
+        for x in _pred_views(sl, q, outcome, depth + 1):
+            note_alt(x, (p, outcome))       # another spelling of the same decision (see groups_of)
+            if x not in out:
+                out.append(x)
     return out
 
 
@@ -302,6 +308,10 @@ def constructed(prog, sl, g, fields=FIELDS):
     for fld in fields:
         fv = normal(prog, sl, sl._field(ok, fld))
         alts_ = fv[1] if fv[0] == 'phi' else (fv,)
+        if len(alts_) > 1 and any(strip(x)[0] == 'agg' and strip(x)[1] == DELTA for x in alts_):
+            # `if c { LayerEnvDelta { entries: .. } } else { LayerEnvDelta::new() }`: which content the field gets is
+            # decided by a branch the entries do not show
+            opaque.append((fld, fv))
         for dv in alts_:
             dv = strip(dv)
             if is_empty_collection(dv):
@@ -443,4 +453,372 @@ def unrolled(E, e, args, views, depth=0):
         v2.extend(gd for gd in guards if gd not in v2)
         for a3, v3, o3 in unrolled(E, e, a2, v2, depth + 1):
             out.append((a3, v3, opq or o3))
+    return out
+
+
+# =====================================================================================================================
+# "exactly when": the other direction.  R2 says an implicit entry exists *only if* its directory is one; the functions
+# below decide that it exists *whenever* the directory is one:
+#   * guard groups      every boolean decision an entry depends on is the Path::is_dir test of its own directory (an extra
+#                       conjunct — `is_dir() && !is_symlink()` — makes the entry rarer than the property allows)
+#   * bypass            in the control-flow graph of every function on the way to the insert, no path gets from the start
+#                       of the region (the loop iteration / the function) to its end without the insert, unless it leaves
+#                       through the "not a directory" edge of the is_dir test (or cannot end in a success of the function)
+#   * exhaustive        the loop over the rows is only left when the rows are exhausted (a `break` / early `return Ok`
+#                       / a short-circuiting consumer whose closure can say "stop" skips the remaining rows)
+# =====================================================================================================================
+IS_DIR = 'std::path::Path::is_dir'
+EXISTS = 'std::path::Path::exists'
+_ALT = {}      # canonical (view, outcome) -> canonical (view, outcome) it is another spelling of (helper inlined)
+
+
+def note_alt(view, of):
+    k, r = (canon(view[0]), view[1]), (canon(of[0]), of[1])
+    if k != r:
+        _ALT[k] = r
+
+
+def group_key(view):
+    k = (canon(view[0]), view[1])
+    for _ in range(8):
+        if k not in _ALT:
+            break
+        k = _ALT[k]
+    return k
+
+
+def groups_of(views):
+    """views that are spellings of the same decision, together: [[(value, outcome)..]..]"""
+    out, idx = [], {}
+    for v in views:
+        k = group_key(v)
+        if k not in idx:
+            idx[k] = len(out)
+            out.append([])
+        out[idx[k]].append(v)
+    return out
+
+
+def is_dir_of(view, root, comps, weak=False):
+    """the directory name d when the view is `Path::is_dir(<root>/d) == true`, else None; weak: `Path::exists(<root>/d)
+    == true` as well (implied by is_dir: `p.exists() && p.is_dir()` depends on nothing but is_dir)"""
+    v, oc = view
+    if isinstance(v, tuple) and v and v[0] == 'call' and v[1] in ((IS_DIR, EXISTS) if weak else (IS_DIR,)) and oc is True and v[2]:
+        cs = comps(v[2][0], root)
+        if cs is not None and len(cs) == 1 and isinstance(cs[0], str):
+            return cs[0]
+    return None
+
+
+def is_layer_dir_test(view, root, comps):
+    """`Path::is_dir(<root>) == true` / `Path::exists(<root>) == true`: holds whenever a sub-directory of the layer
+    directory is a directory, so it takes nothing away from the row's own test"""
+    v, oc = view
+    return isinstance(v, tuple) and bool(v) and v[0] == 'call' and v[1] in (IS_DIR, EXISTS) and oc is True \
+        and bool(v[2]) and comps(v[2][0], root) == ()
+
+
+def level_calls(e):
+    """(Call, mapping) of every level of the chain of effect e, outermost first"""
+    from .lib.effects import Link
+    return [(l.call, l.mapping) for l in e.chain if isinstance(l, Link)] + ([(e.call, e.mapping)] if e.call is not None else [])
+
+
+def header_guards(E, e):
+    """a loop that lib/effects unrolled over `rows.into_iter().filter(p)` (a pipeline in the loop header) runs its body
+    only for the rows that pass the stages: the predicates of those stages for the row of this effect, in the entry
+    function's terms.  -> ([(value, outcome)..], opaque)"""
+    sl = E.slicer
+    guards, opaque = [], False
+    for call, m in level_calls(e):
+        m = m or {}
+        for key, row in m.get('__repl__', ()) or ():
+            for lp in E.loops(call.fn):
+                if call.bb not in lp.body or lp.collection is None or iters.loop_key(lp.collection) != key:
+                    continue
+                plain = dict(m)
+                plain.pop('__repl__', None)
+                coll = E.subst(lp.collection, plain)
+                if not any(x[0] == 'call' and x[1].startswith(IT) for x in _walk(coll)):
+                    continue        # a plain table: every row is visited
+                els = elements(sl, coll)
+                hit = [x for x in els if x[1] is None and canon(x[0]) == canon(row)]
+                if len(hit) != 1:
+                    opaque = True
+                    continue
+                for gd in hit[0][2]:
+                    if gd not in guards:
+                        guards.append(gd)
+                opaque = opaque or hit[0][3]
+    # `rows.into_iter().filter(p).for_each(|row| ..)`: lib/effects runs the closure once per row of the receiver, with the
+    # row bound to the closure's parameter; the stages between the table and the consumer decide for which rows
+    lv = level_calls(e)
+    for i, (call, m) in enumerate(lv[:-1]):
+        d = call.decl or ''
+        if not d.startswith('std::iter::') or not call.args:
+            continue
+        g = lv[i + 1][0].fn
+        while g.kind == 'Closure' and g.parent and creation_fn(E.prog, g) is not call.fn and g.parent in E.prog.fns and E.prog.fns[g.parent].kind == 'Closure':
+            g = E.prog.fns[g.parent]
+        m2 = lv[i + 1][1] or {}
+        bound = [m2[k] for k in ((g.path, 1), (g.path, 2)) if k in m2]
+        ridx = 1 if d == 'std::iter::Extend::extend' else 0
+        if not bound or ridx >= len(call.args):
+            continue
+        plain = dict(m or {})
+        plain.pop('__repl__', None)
+        recv = E.subst(sl.operand(call.fn, call.args[ridx]), m or {})
+        if not any(x[0] == 'call' and x[1].startswith(IT) and x[1] != IT + 'next' for x in _walk(recv)):
+            continue
+        els = elements(sl, recv)
+        hit = [x for x in els if x[1] is None and any(canon(x[0]) == canon(b) for b in bound)]
+        if len(hit) != 1:
+            opaque = True
+            continue
+        for gd in hit[0][2]:
+            if gd not in guards:
+                guards.append(gd)
+        opaque = opaque or hit[0][3]
+    return guards, opaque
+
+
+def creation_fn(prog, g):
+    from .lib.guards import creation_site
+    return creation_site(prog, g)[0]
+
+
+def _succ_reach(E, f):
+    """(success blocks, blocks from which one of them can be reached)"""
+    succ = {s.bb for s in E.sites(f)} or set(f.return_blocks())
+    preds = f.preds()
+    back, work = set(), list(succ)
+    while work:
+        b = work.pop()
+        if b in back:
+            continue
+        back.add(b)
+        work.extend(preds[b])
+    return succ, back
+
+
+def _search(f, starts, avoid, skip, stop):
+    """first block satisfying stop() that is reachable from starts without entering a block of `avoid` or using an edge of
+    `skip`; None if there is none"""
+    seen, work = set(), [b for b in starts]
+    while work:
+        b = work.pop()
+        if b in seen or b in avoid:
+            continue
+        seen.add(b)
+        if stop(b):
+            return b
+        for s in f.succs(b):
+            if (b, s) not in skip:
+                work.append(s)
+    return None
+
+
+def _row_infeasible_edges(E, f, lp, m):
+    """edges of `match <projection of the row>` switches inside loop lp that no row of the (literal) table takes:
+    `_ => continue` next to `Scope::Build` / `Scope::Launch` arms is dead code when every row is Build or Launch"""
+    from .lib.guards import _discr_info
+    from .lib.value import subst
+    sl = E.slicer
+    out = set()
+    if lp.collection is None:
+        return out
+    plain = dict(m or {})
+    plain.pop('__repl__', None)
+    rows = _rows_of(sl, E.subst(lp.collection, plain))
+    if not rows:
+        return out
+    key = iters.loop_key(lp.collection)
+    for sb in lp.body:
+        t = f.blocks[sb]['t']
+        if t['t'] != 'switch':
+            continue
+        di = _discr_info(f, sb, t['o'])
+        if not di:
+            continue
+        place, vmap, enum = di
+        subj = sl.place(f, place)
+        taken = set()
+        for row, _, _ in rows:
+            sv = strip(subst(E.subst(subj, plain), {'__repl__': [(key, row)]}, sl))
+            if sv[0] == 'agg' and sv[1] == enum and sv[2] is not None:
+                taken.add(sv[2])
+            else:
+                taken = None
+                break
+        if not taken:
+            continue
+        listed = {v for v, _ in t['targets']}
+        live = set()
+        for v, tb in t['targets']:
+            if vmap.get(v) in taken:
+                live.add(tb)
+        if any(n in taken for v, n in vmap.items() if v not in listed):
+            live.add(t['else'])
+        for s in f.succs(sb):
+            if s not in live:
+                out.add((sb, s))
+    return out
+
+
+def _no_layer_dir_edges(f, sl, root, comps):
+    """edges taken when the layer directory itself does not exist / is not a directory (`if !layer_dir.is_dir() { return
+    Ok(Self::new()) }`): none of its sub-directories is a directory then, so nothing is lost on them"""
+    out = set()
+    for sb, blk in enumerate(f.blocks):
+        t = blk['t']
+        if t['t'] != 'switch' or t.get('oty') != 'bool':
+            continue
+        val, neg = sl.operand(f, t['o']), False
+        while val[0] == 'un' and val[1] == 'Not':
+            val, neg = val[2], not neg
+        if not (val[0] == 'call' and val[1] in (IS_DIR, 'std::path::Path::exists') and val[2] and comps(val[2][0], root) == ()):
+            continue
+        for v, tb in t['targets']:
+            if (v == 0) != neg:
+                out.add((sb, tb))
+        listed = [v for v, _ in t['targets']]
+        if (listed == [1]) != neg and len(listed) == 1:
+            out.add((sb, t['else']))
+    return out
+
+
+def sufficiency(E, call, mapping, targets, root=None, comps=None):
+    """problems [(kind 'always' | 'exhaustive' | 'unknown', text)] with "the call runs for every row whose directory
+    exists" inside call.fn; `targets` = blocks of all calls of this function that lead to an entry of the same kind;
+    root / comps: the layer directory in call.fn's terms (given for the entry function only)"""
+    from .lib.guards import conditions
+    f, bb, sl = call.fn, call.bb, E.slicer
+    probs = []
+    succ, back = _succ_reach(E, f)
+    skip = set()
+    if root is not None:
+        skip |= _no_layer_dir_edges(f, sl, root, comps)
+    for cd in conditions(f, bb, sl):
+        if cd.kind == 'bool' and any(isinstance(v, tuple) and v and v[0] == 'call' and v[1] in (IS_DIR, EXISTS) for v, _ in cd.views()):
+            for s in f.succs(cd.sw_bb):
+                if s != cd.target:
+                    skip.add((cd.sw_bb, s))
+    loops = sorted([lp for lp in E.loops(f) if bb in lp.body and bb != lp.header], key=lambda lp: len(lp.body))
+    avoid = set(targets)
+    for lp in loops:
+        ex = getattr(lp, 'exhaust', None)
+        if ex is None:
+            probs.append(('unknown', 'the loop at bb%d of %s around the insert has no recognisable exhaustion edge' % (lp.header, f.path)))
+            avoid = {lp.header}
+            continue
+        dead = _row_infeasible_edges(E, f, lp, mapping)
+        skip |= dead
+        starts = [s for s in f.succs(ex[0]) if s in lp.body]
+        hit = _search(f, starts, avoid, skip, lambda b: b == lp.header or (b not in lp.body and b in back))
+        if hit is not None:
+            probs.append(('always', 'an iteration of the row loop of %s can end (bb%d) without the insert although the is_dir test of the row passed'
+                          % (f.path.split('::')[-1], hit)))
+        for b in sorted(lp.body):
+            for s in f.succs(b):
+                # (leaving through the "not a directory" edge of the is_dir test is leaving early, too)
+                if s in lp.body or (b, s) == tuple(ex) or (b, s) in dead or s not in back:
+                    continue
+                probs.append(('exhaustive', 'the row loop of %s is left at bb%d -> bb%d before the rows are exhausted: the remaining rows are skipped'
+                              % (f.path.split('::')[-1], b, s)))
+        avoid = {lp.header}
+    hit = _search(f, [0], avoid, skip, lambda b: b in succ)
+    if hit is not None:
+        probs.append(('always', '%s can return successfully (bb%d) without getting to the insert although the is_dir test passed'
+                      % (f.path.split('::')[-1], hit)))
+    return probs
+
+
+CONTINUE_AGG = {('std::option::Option', 'Some'), ('std::result::Result', 'Ok'), ('std::ops::ControlFlow', 'Continue')}
+# consumers that call their closure for every element they are given (the lazy adapters — map, inspect, filter.. — call
+# theirs only as far as whatever consumes them pulls: a side effect in there is not known to happen for every row)
+EVERY_ELEMENT = {IT + 'for_each', IT + 'fold'}
+
+
+def adapter_problem(E, call, mapping):
+    """a closure that carries the insert is run by an iterator adapter: does the adapter run it for every element?
+    None | (kind, text)"""
+    sl = E.slicer
+    d = call.decl or ''
+    if not d.startswith('std::iter::'):
+        return None
+    if d in EVERY_ELEMENT:
+        return None
+    if d in (IT + 'try_for_each', IT + 'try_fold'):
+        ci = 1 if d == IT + 'try_for_each' else 2
+        if ci < len(call.args):
+            clv = strip(sl.operand(call.fn, call.args[ci]))
+            g = E.prog.fns.get(clv[1]) if clv and clv[0] == 'closure' else None
+            if g is not None:
+                rv = strip(sl.local(g, 0))
+                alts_ = rv[1] if rv[0] == 'phi' else (rv,)
+                if all(a[0] == 'agg' and (a[1], a[2]) in CONTINUE_AGG for a in map(strip, alts_)):
+                    return None
+                return ('exhaustive', '%s stops at the first row for which its closure returns None / Err / Break, and the closure can: the remaining '
+                        'rows are skipped' % d.split('::')[-1])
+    return ('unknown', 'the insert runs inside a closure handed to %s, which need not call it for every row' % d.split('::')[-1])
+
+
+# ---- LayerData.env ---------------------------------------------------------------------------------------------------
+LAYER_DATA = 'libcnb::layer::trait_api::LayerData'
+
+
+def _closure_binding(prog, sl, g):
+    """a closure handed to an Option / Result combinator (`read(..).map_err(..).map(|env| ..)`): (closure value in the
+    parent's terms, value its first parameter is bound to) or (None, None)"""
+    from .lib.guards import creation_site
+    parent, cb = creation_site(prog, g)
+    if parent is None:
+        return None, None
+    for c in parent.calls:
+        if c.indirect or len(c.args) != 2:
+            continue
+        n = c.decl or c.name or ''
+        if not n.startswith(('std::option::Option::', 'std::result::Result::')) or not n.endswith(('::map', '::and_then')):
+            continue
+        clv = strip(sl.operand(parent, c.args[1]))
+        if clv[0] == 'closure' and clv[1] == g.path:
+            return clv, ('unwrap', sl._ok_core(sl.operand(parent, c.args[0])))
+    return None, None
+
+
+def layer_data_inits(prog, sl, reader):
+    """every construction of a `LayerData` value: [(fn, where, env value, path value, why-not-decidable | None)] with the
+    env / path field values in the terms of the function that runs the construction (closure parameters bound through
+    the combinator the closure was handed to)"""
+    from .lib.value import subst
+    out = []
+    for f in prog.fns.values():
+        if f.crate != 'libcnb' or getattr(f, 'derived', False):
+            continue
+        for bi, b in enumerate(f.blocks):
+            for s in b['s']:
+                if s[0] != '=' or s[2].get('r') != 'agg' or s[2].get('kind') != 'adt' or s[2].get('adt') != LAYER_DATA:
+                    continue
+                names = s[2].get('fields', [])
+                ops = s[2].get('ops', [])
+                where = '%s:%d' % (f.file, f.line)
+                if 'env' not in names or 'path' not in names or len(ops) != len(names):
+                    out.append((f, where, None, None, 'construction not understood'))
+                    continue
+                src = sl
+                m = None
+                if f.kind == 'Closure':
+                    clv, bound = _closure_binding(prog, sl, f)
+                    if clv is None or sl.apply_closure(clv, (bound,)) is None:
+                        out.append((f, where, None, None, 'built inside a closure whose argument could not be traced'))
+                        continue
+                    src = sl._sym
+                    m = {(f.path, 1): bound}
+                    for i, uv in enumerate(clv[2]):
+                        m[('upvar', f.path, i)] = uv
+                ev = src.operand(f, ops[names.index('env')])
+                pv = src.operand(f, ops[names.index('path')])
+                if m is not None:
+                    ev, pv = subst(ev, m, sl), subst(pv, m, sl)
+                out.append((f, where, ev, pv, None))
     return out
